@@ -263,22 +263,14 @@ func (d *dumper) node(n ast.Node) {
 		d.w(")")
 	case *ast.Map:
 		d.w("(map")
-		if len(n.Items()) > 1 && !parserMode {
-			d.bad = true // iteration order is not reproducible
-		}
-		var pairs []string
-		for k, v := range n.Items() {
-			sub := &dumper{}
-			sub.w("(")
-			sub.node(k)
-			sub.w(" ")
-			sub.node(v)
-			sub.w(")")
-			pairs = append(pairs, sub.sb.String())
-		}
-		sort.Strings(pairs)
-		for _, p := range pairs {
-			d.w(" " + p)
+		// entries in source order (ast.Map.OrderedKeys)
+		items := n.Items()
+		for _, k := range n.OrderedKeys() {
+			d.w(" (")
+			d.node(k)
+			d.w(" ")
+			d.node(items[k])
+			d.w(")")
 		}
 		d.w(")")
 	case *ast.Var:
